@@ -1,4 +1,5 @@
 import Aiorpcx.C19.Lemmas
+import Aiorpcx.C19.Ref
 import Aiorpcx.Facts.C19
 /-!
 # C19 — argument checking admits exactly the calls Python can bind
@@ -179,6 +180,22 @@ theorem bindable_named_iff (h : Handler) (ns : List Name) :
       · rcases h2 p hp hs with h | h
         · exact Or.inl (Or.inr h)
         · exact Or.inr h
+
+/-- **The SPEC is the Language Reference's algorithm.**  `bindRef` (Ref.lean) executes §6.3.4
+    literally - slots, positional filling, keyword look-up with "already filled" and "no such
+    parameter" errors, defaults, `*args` / `**kwargs`, slots pre-filled by a bound method or
+    partial; on every well-formed handler it agrees with the closed form `bindable` for the two
+    call shapes `handler_invocation` produces (dict keys are distinct: `ns.Nodup`). -/
+theorem spec_is_reference (h : Handler) (hwf : HandlerWF h) :
+    (∀ n, bindRef h n [] = bindable h (.pos n)) ∧
+    (∀ ns : List Name, ns.Nodup → bindRef h 0 ns = bindable h (.named ns)) :=
+  ⟨bindRef_pos h hwf, bindRef_named h hwf⟩
+
+/-- the algorithm is not trivial: with both positional and keyword arguments it reports the
+    "multiple values" error of `f(1, a=2)` for `def f(a, b=…)` and accepts `f(1, b=2)` -/
+example :
+    let h : Handler := ⟨[⟨.pk, 0, false⟩, ⟨.pk, 1, true⟩], []⟩
+    bindRef h 1 [0] = false ∧ bindRef h 1 [1] = true ∧ bindRef h 0 [1] = false := by decide
 
 /-! ## soundness: accepted ⇒ Python binds the invocation -/
 
